@@ -326,6 +326,27 @@ ADDED8 = {
 for _pid, _t in ADDED8.items():
     CLAIMED[_pid]["text"] += " Round 8: " + _t
 
+ADDED9 = {
+ "C02": "(Q15) peepPositive negates a machine integer only when it has a positive counterpart; (Q16) a low-bits mask built from a remainder (~(~0 << (n % W))) is reached only where the remainder has been tested against zero (rules/lowmask.py).",
+ "C04": "(B11) the folder narrows the result of a conversion builtin to the class of its FOAM result (CharNum to a character).",
+ "C05": "(W16) foam.c never stores or returns an S-expression's own object (sxiToThe...: no copy): the tree read from a .fm keeps copies.",
+ "C06": "(S13) the sixteen type-error reporters of terror.c confirmed on today's tree send their message on every path (a message or a call of another of them).",
+ "C07": "(K18) inclGetLine terminates a last line cut short by the end of the file; (K19) every path through yyerrorfn passes a message and an increment of yyerrcount.",
+ "C08": "(D2) qsort call sites are sort sites too: the comparator closure must not order by address.",
+ "C09": "(G11) = C20-V11 on btree.c, the store's index of free pieces.",
+ "C10": "(T-roots) every scan of foreign pages in stoGcMark hands [page, page + PgSize) of each foreign page to stoGcMarkRange, index stepped by one; another shape is refused.",
+ "C11": "(N7) bintLT/bintGT evaluated over the finite domain of orderings (two signs, order of the lengths, order of the first differing digit: 36 abstract inputs each, rules/ordereval.py) against the order of the integers described; (N8) a chained carry step (kout == kin) inside a digit loop lies under blocks only and no earlier statement of the round can leave the round.",
+ "C12": "(J14) nothing in foamj wraps System.out in another stream, and FoamContext.startFoam flushes System.out in a finally around the program's run.",
+ "C13": "(U8) every container-typed field of struct stabLevel is filtered by scoUndoStabLevel (also through helpers) or listed with its reason; the two views of tformsUsed use one predicate.",
+ "C15": "(P11) every path of sposNew to the creation of the position compares the file names or starts a new run of the line table.",
+ "C16": "(M10) no printf-style format of genc.c prints a string under a precision.",
+ "C17": "(R8) in the reader units the result of strchr/strrchr/strstr/strpbrk/memchr is not dereferenced directly, and a local holding it is tested before it is dereferenced (rules/nullsearch.py).",
+ "C18": "(O6) now reads static predicates of the unit; (O9) the eight single-file writers of emit.c pass fileCloseOut on every path.",
+ "C20": "(V10) no function of table.c, btree.c, priq.c, bitv.c, intset.c, dnf.c keeps unit-level state; an answer remembered by operand address is a violation, any other unit-level write is refused; (V11) in btree.c the branch run moved with a key run reaches one source index further; (V12) = C02-Q16 on the container units.",
+}
+for _pid, _t in ADDED9.items():
+    CLAIMED[_pid]["text"] += " Round 9: " + _t
+
 def main():
     checks = []
     for pid in sorted(CLAIMED):
